@@ -224,6 +224,10 @@ pub fn generate(em: &mut Emitter, seed: u64, thorough: bool) {
             check_balance(em, &what, &src[..src.len().min(200)], &p, &st, &[], &mut rng, &mut counters);
         }
     }
+    // control blocks nested directly in each other (LOOP in LOOP, ...), loops entered / repeated / skipped
+    for (i, (p, bits)) in crate::c13::nested_programs(&mut rng, if thorough { 200 } else { 40 }).iter().enumerate() {
+        check_balance(em, &format!("nested control blocks #{}", i), "raw MAST: JOIN/SPLIT/LOOP tree over NOOP spans", p, bits, &[], &mut rng, &mut counters);
+    }
     // range-checker gaps of special sizes (powers of three, multiples of the largest stride)
     for (what, k, src, st) in crate::c03::range_gap_programs(seed, if thorough { 200 } else { 30 }) {
         if let Ok(p) = assemble(k.as_deref(), &src, false) {
